@@ -163,3 +163,158 @@ func ReturnsOf(fn *ssa.Function) []*ssa.Return {
 func IsErrorType(t types.Type) bool {
 	return types.Identical(t, types.Universe.Lookup("error").Type())
 }
+
+// Leaf is a non-phi value flowing into a use, together with the last instruction of the
+// predecessor block through which it flows (or the use itself for a direct operand).
+type Leaf struct {
+	V    ssa.Value
+	At   ssa.Instruction
+	Pred *ssa.BasicBlock // non-nil when the value flows along the CFG edge Pred -> To into a phi
+	To   *ssa.BasicBlock
+}
+
+// PhiLeaves expands nested phis of v used at instruction at.
+func PhiLeaves(v ssa.Value, at ssa.Instruction) []Leaf {
+	var out []Leaf
+	seen := map[*ssa.Phi]bool{}
+	var rec func(v ssa.Value, at ssa.Instruction, pred, to *ssa.BasicBlock)
+	rec = func(v ssa.Value, at ssa.Instruction, pred, to *ssa.BasicBlock) {
+		if phi, ok := v.(*ssa.Phi); ok {
+			if seen[phi] {
+				return
+			}
+			seen[phi] = true
+			for i, e := range phi.Edges {
+				pb := phi.Block().Preds[i]
+				rec(e, pb.Instrs[len(pb.Instrs)-1], pb, phi.Block())
+			}
+			return
+		}
+		out = append(out, Leaf{v, at, pred, to})
+	}
+	rec(v, at, nil, nil)
+	return out
+}
+
+// Reach answers "may fn (transitively, through module-internal callees) execute a call satisfying pred?".
+type Reach struct {
+	P    *Prog
+	Pred func(site ssa.CallInstruction) bool
+	memo map[*ssa.Function]*reachRes
+}
+
+type reachRes struct {
+	done bool
+	hit  ssa.CallInstruction
+	via  *ssa.Function
+}
+
+func NewReach(p *Prog, pred func(site ssa.CallInstruction) bool) *Reach {
+	return &Reach{P: p, Pred: pred, memo: map[*ssa.Function]*reachRes{}}
+}
+
+// From returns a chain of function keys ending in the matching call site, or nil.
+func (r *Reach) From(fn *ssa.Function) []string {
+	res := r.visit(fn, 0)
+	if res == nil || res.hit == nil {
+		return nil
+	}
+	var chain []string
+	cur := fn
+	for i := 0; i < 30 && cur != nil; i++ {
+		rr := r.memo[cur]
+		if rr == nil || rr.hit == nil {
+			break
+		}
+		if rr.via == nil {
+			chain = append(chain, FnKey(cur)+" -> "+CalleeName(rr.hit.Common())+" at "+r.P.Pos(rr.hit.Pos()))
+			break
+		}
+		chain = append(chain, FnKey(cur)+" calls "+FnKey(rr.via)+" at "+r.P.Pos(rr.hit.Pos()))
+		cur = rr.via
+	}
+	return chain
+}
+
+func (r *Reach) visit(fn *ssa.Function, depth int) *reachRes {
+	if res, ok := r.memo[fn]; ok {
+		return res
+	}
+	res := &reachRes{}
+	r.memo[fn] = res
+	if fn.Blocks == nil || depth > 25 {
+		return res
+	}
+	// direct
+	EachInstr(fn, func(in ssa.Instruction) {
+		if res.hit != nil {
+			return
+		}
+		if ci, ok := in.(ssa.CallInstruction); ok {
+			if _, isGo := in.(*ssa.Go); isGo {
+				return
+			}
+			if r.Pred(ci) {
+				res.hit = ci
+			}
+		}
+	})
+	if res.hit != nil {
+		return res
+	}
+	n := r.P.CallGraph().Nodes[fn]
+	if n == nil {
+		return res
+	}
+	for _, e := range n.Out {
+		if e.Site == nil {
+			continue
+		}
+		if _, isGo := e.Site.(*ssa.Go); isGo {
+			continue
+		}
+		c := e.Callee.Func
+		if c == nil || c.Pkg == nil || !IsProd(c.Pkg.Pkg.Path()) {
+			continue
+		}
+		if sub := r.visit(c, depth+1); sub != nil && sub.hit != nil {
+			res.hit = e.Site
+			res.via = c
+			return res
+		}
+	}
+	return res
+}
+
+// CalleesAt returns the possible module-internal callees of a call site according to the call graph.
+func (p *Prog) CalleesAt(fn *ssa.Function, site ssa.CallInstruction) []*ssa.Function {
+	if f := site.Common().StaticCallee(); f != nil {
+		return []*ssa.Function{f}
+	}
+	n := p.CallGraph().Nodes[fn]
+	if n == nil {
+		return nil
+	}
+	var out []*ssa.Function
+	for _, e := range n.Out {
+		if e.Site == site && e.Callee.Func != nil {
+			out = append(out, e.Callee.Func)
+		}
+	}
+	return out
+}
+
+// PkgOfType returns the package path of a named (or pointer to named) type, "" otherwise.
+func PkgOfType(t types.Type) string {
+	for {
+		if p, ok := t.(*types.Pointer); ok {
+			t = p.Elem()
+			continue
+		}
+		break
+	}
+	if nt, ok := t.(*types.Named); ok && nt.Obj().Pkg() != nil {
+		return nt.Obj().Pkg().Path()
+	}
+	return ""
+}
